@@ -193,7 +193,7 @@ def suite_fps_cli(seed, tier):
                 rc, out, exc = _invoke(args)
                 cases += 1
                 if rc != 0:
-                    r.bad.append({"suite": "fps-cli", "what": f"fps-split failed rc={rc}: {exc!r}", "args": args[3:]})
+                    r.bad.append({"suite": "fps-cli", "what": f"fps-split failed rc={rc}: {exc!r}", "args": args[4:]})
                 else:
                     files = sorted((d / "split").glob("*.npy"))
                     exp_names = [part_name("fps", digits, i) for i in range(-(-n // per))]
@@ -203,12 +203,12 @@ def suite_fps_cli(seed, tier):
                     cat = np.concatenate([np.load(f) for f in files])
                     if cat.tolist() != A.tolist():
                         r.bad.append({"suite": "fps-cli", "what": "concatenating the split parts in name order "
-                                      "does not reproduce the file", "n": n, "args": args[3:]})
+                                      "does not reproduce the file", "n": n, "args": args[4:]})
                     rc, out, exc = _invoke(["fps-merge", str(d / "split"), "-o", str(d / "merged")])
                     merged = np.load(d / "merged" / "fps.npy") if rc == 0 else None
                     if merged is None or merged.tolist() != A.tolist():
                         r.bad.append({"suite": "fps-cli", "what": "fps-merge of the split parts differs from "
-                                      "the original", "n": n, "args": args[3:]})
+                                      "the original", "n": n, "args": args[4:]})
                     # model: names and order
                     terms.append("list_eqb String.eqb (map fst (split_parts \"fps\"%string "
                                  f"{cz(digits)} {cnat(per)} {czl(list(range(n)))})) "
@@ -232,27 +232,43 @@ def suite_fps_cli(seed, tier):
                 elif target.name in ("oned.npy", "flt.npy") and "Invalid" not in out:
                     r.bad.append({"suite": "fps-cli", "what": f"fps-info did not flag {target.name} as invalid"})
         # ---- fps-from-smiles: parts x processes x pack, invalid smiles at arbitrary positions
-        for k in range(3 if tier == "quick" else 25):
-            d = tmp / f"s{k}"
+        # every way of cutting the input into batches (one file filled by several workers, one file
+        # filled batch by batch by one worker, several files) with an invalid entry in EVERY batch:
+        # first row, a middle row of a later batch, last row
+        spread = [("single", 2, None), ("single", 3, None), ("parts", 1, 3), ("max", 1, 2), ("parts", 2, 3)]
+        n_random = 3 if tier == "quick" else 25
+        for k in range(-len(spread), n_random):
+            d = tmp / f"s{k + len(spread)}"
             d.mkdir()
             m = rng.randint(3, 14)
-            many_parts = (k % 3 == 2)           # 10..12 output files: the part index needs two digits
+            many_parts = (k >= 0 and k % 3 == 2)   # 10..12 output files: the part index needs two digits
             if many_parts:
                 m = rng.randint(22, 30)
             smiles = [rng.choice(SMILES_OK) for _ in range(m)]
-            n_bad = rng.choice([0, 1, 2])
-            for _ in range(n_bad):
-                smiles[rng.randrange(m)] = rng.choice(SMILES_BAD)
+            if k < 0:
+                m = rng.choice([9, 10, 13])
+                smiles = [rng.choice(SMILES_OK) for _ in range(m)]
+                for pos in (0, m // 2, m - 1):
+                    smiles[pos] = rng.choice(SMILES_BAD)
+            else:
+                n_bad = rng.choice([0, 1, 2])
+                for _ in range(n_bad):
+                    smiles[rng.randrange(m)] = rng.choice(SMILES_BAD)
             (d / "in.smi").write_text("\n".join(smiles) + "\n")
             pack = rng.random() < 0.6
             ref, ref_inv = fps_from_smiles(smiles, n_features=64, skip_invalid=True, pack=pack)
             mode = rng.choice(["single", "parts", "max"]) if not many_parts else rng.choice(["parts", "max"])
+            ps = 2 if many_parts else rng.choice([1, 2] if tier == "quick" else [1, 2, 3, 8])
+            if k < 0:
+                mode, ps, _arg = spread[k + len(spread)]
             args = ["fps-from-smiles", str(d / "in.smi"), "-o", str(d / "out"), "--name", "x",
                     "--n-features", "64", "--skip-invalid", "--no-verbose", "--ps",
                     # many parts: more files than 4 x processes, so that a pool worker handles several
-                    str(2 if many_parts else rng.choice([1, 2] if tier == "quick" else [1, 2, 3, 8]))]
+                    str(ps)]
             args += ["-p"] if pack else ["-P"]
-            if mode == "parts":
+            if k < 0 and mode in ("parts", "max"):
+                args += ["-n" if mode == "parts" else "-m", str(_arg)]
+            elif mode == "parts":
                 args += ["-n", str(rng.randint(2, 4) if not many_parts else rng.choice([10, 11, 12]))]
             elif mode == "max":
                 args += ["-m", str(rng.choice([2, 3, m, m + 5]) if not many_parts else 2)]
@@ -260,20 +276,20 @@ def suite_fps_cli(seed, tier):
             cases += 1
             if rc != 0:
                 r.bad.append({"suite": "fps-cli", "what": f"fps-from-smiles failed rc={rc}: {exc!r}",
-                              "args": args[3:], "n_smiles": m})
+                              "args": args[4:], "n_smiles": m})
                 continue
             files = sorted(f for f in (d / "out").glob("x*.npy"))
             cat = np.concatenate([np.load(f) for f in files]) if files else np.zeros((0, 8))
             if cat.tolist() != ref.tolist():
                 r.bad.append({"suite": "fps-cli", "what": "files written by fps-from-smiles, concatenated in name "
                               "order, are not the fingerprints of the valid SMILES in input order",
-                              "args": args[3:], "smiles": smiles})
+                              "args": args[4:], "smiles": smiles})
             inv_files = sorted((d / "out").glob("invalid-*.npy"))
             if len(files) == 1 and len(ref_inv):
                 got_inv = np.load(inv_files[0]).tolist() if inv_files else None
                 if got_inv != ref_inv.tolist():
                     r.bad.append({"suite": "fps-cli", "what": "skipped entries are not reported by index",
-                                  "args": args[3:], "smiles": smiles, "reported": got_inv})
+                                  "args": args[4:], "smiles": smiles, "reported": got_inv})
             elif len(files) > 1 and len(ref_inv) and not inv_files:
                 r.known_hits = getattr(r, "known_hits", []) + ["multi-file-skip-invalid-no-index"]
     out = eval_cases("fpscli", PRE, terms, shard=200) if terms else []
